@@ -25,7 +25,8 @@ CONSTANTS MaxW,         \* largest pool size
           AcqWorker,    \* worker: has_job.load() is an acquire
           RelDone,      \* worker: has_job.store(0) is a release
           AcqWait,      \* was_empty: has_job.load() is an acquire
-          LockedNotify  \* resume() takes the mutex before notify_all
+          LockedNotify, \* resume() takes the mutex before notify_all
+          SpuriousWake  \* condition-variable waits may return without a notification (allowed by C++)
 
 W == 1..MaxW
 CALLER == 99
@@ -235,7 +236,13 @@ K4(i) == /\ wpc[i] = "K4" /\ pcount' = pcount - 1 /\ wpc' = [wpc EXCEPT ![i] = "
 K5(i) == /\ wpc[i] = "K5" /\ mutex' = 0 /\ wpc' = [wpc EXCEPT ![i] = "L3"]
          /\ UNCH_C /\ UNCHANGED <<hasJob, hjVer, pcount, cvWait, seenVer, resVer, execCount, race>>
 
-WorkerNext(i) == L0(i) \/ L1(i) \/ L2(i) \/ L3(i) \/ K0(i) \/ K1(i) \/ K2(i) \/ K3(i) \/ K4(i) \/ K5(i)
+\* a spurious wake-up: the wait returns although nobody notified (the pause job has no predicate
+\* loop around cv.wait, so the worker leaves the pause; outside the library's assumptions)
+KSpurious(i) == /\ SpuriousWake /\ wpc[i] = "blocked" /\ i \in cvWait
+                /\ cvWait' = cvWait \ {i} /\ wpc' = [wpc EXCEPT ![i] = "K3"]
+                /\ UNCH_C /\ UNCHANGED <<hasJob, hjVer, pcount, mutex, seenVer, resVer, execCount, race>>
+
+WorkerNext(i) == L0(i) \/ L1(i) \/ L2(i) \/ L3(i) \/ K0(i) \/ K1(i) \/ K2(i) \/ K3(i) \/ K4(i) \/ K5(i) \/ KSpurious(i)
 
 Next == CallerNext \/ \E i \in W : WorkerNext(i)
 
